@@ -26,13 +26,14 @@ Used(k) == 1..Runs[k].n            \* the workers of run k; the others never mov
 
 TInit == /\ tr \in 1..Len(Runs) /\ l = 1 /\ acc = FALSE
          /\ fails = { Runs[tr].fails[j] : j \in 1..Len(Runs[tr].fails) }
-         /\ pc = [t \in 1..N |-> IF t \in Used(tr) THEN "start" ELSE "done"]
+         /\ pc = [t \in 1..N |-> IF t \in Used(tr) THEN "queued" ELSE "done"]
          /\ holder = 0 /\ cmReady = FALSE /\ main = "collect" /\ next = 1 /\ printed = <<>>
 
 IsEvent(name) == l <= Len(Log(tr)) /\ Log(tr)[l].ev = name /\ l' = l + 1 /\ UNCHANGED <<tr, acc>>
 T == Log(tr)[l].t
 
-TAcquire    == IsEvent("Acquire") /\ R!Acquire(T)
+\* the log has no event for the pool picking an entry up: the first Acquire of a worker includes its Start
+TAcquire    == IsEvent("Acquire") /\ (R!Acquire(T) \/ R!StartAcquire(T))
 TEnsureOk   == IsEvent("EnsureOk") /\ R!EnsureOk(T)
 TEnsureFail == IsEvent("EnsureFail") /\ R!EnsureFail(T)
 TRelease    == IsEvent("Release") /\ (R!Release(T) \/ R!ReleaseUnwind(T))
@@ -41,7 +42,10 @@ TReturn     == IsEvent("Return") /\ R!Search(T)
 TRaise      == IsEvent("Raise") /\ pc[T] = "raised" /\ UNCHANGED <<fails, pc, holder, cmReady, main, next, printed>>
 \* "Starved" (a worker waited for the lock until the harness gave up) is no action of the specification
 Accept == /\ l = Len(Log(tr)) + 1 /\ ~acc /\ acc' = TRUE
-          /\ \A t \in Used(tr) : R!Terminal(t)
+          \* every worker ended - or was never picked up because the main thread had already met a failing
+          \* earlier entry (executor.map cancels the pending entries when it re-raises)
+          /\ \A t \in Used(tr) : \/ R!Terminal(t)
+                                  \/ (pc[t] = "queued" /\ Runs[tr].mode = "main" /\ \E f \in fails : f < t)
           /\ holder = 0 /\ ~Runs[tr].locked
           /\ (Runs[tr].mode = "main" =>
                 /\ Runs[tr].printed = [k \in 1..Len(Runs[tr].printed) |-> k]
